@@ -832,6 +832,8 @@ class Engine(Conc, Executor, Calls):
         rtypes = [r["type"] for r in fn["results"]]
         mods = decl.get("modifies")
         self.lock_effect_obligations(decl, fn, rets, entry_held)
+        if decl.get("constructor") and not self.quiet:
+            self.constructor_obligations(decl, fn, rets)
         if decl.get("promises") and not self.quiet:
             for out in rets:
                 rn0 = dict(names)
@@ -932,6 +934,58 @@ class Engine(Conc, Executor, Calls):
         info["secs"] = time.time() - t0
         self.cur = None
         return info
+
+    def constructor_obligations(self, decl, fn, rets):
+        """`constructor`: the returned object satisfies everything its type declaration lets every other function assume at entry:
+        the `nonnil` fields, the data-structure invariants and (the object not being shared yet) the lock invariants"""
+        tags = decl.get("constructor")[0].tags or None
+        for out in rets:
+            if not out.results:
+                continue
+            p = out.results[0]
+            rt_override = None
+            if isinstance(p, IfaceV) and p.dyn is not None and isinstance(p.dyn[1], PtrV):
+                rt_override = self.ir.types.get(self.ir.under(p.dyn[0]), {}).get("elem")
+                p = p.dyn[1]
+            if not isinstance(p, PtrV):
+                continue
+            st = out.st
+            if len(out.results) > 1:
+                if not z3.is_false(z3.simplify(to_bool(p.nil))) and st.feasible(to_bool(p.nil)):
+                    continue        # (nil, err) result
+            else:
+                o = self.obl("valid", "result-nonnil", tags)
+                self.record(o, st, z3.Not(to_bool(p.nil)), out.info)
+            rt = rt_override or self.ir.types.get(self.ir.under(fn["results"][0]["type"]), {}).get("elem")
+            td = self.type_invs.get(rt)
+            if td is None:
+                continue
+            sv = st.load(p)
+            for cl in td.clauses:
+                if cl.kind == "nonnil":
+                    for fld in cl.extra["fields"]:
+                        x = sv.f.get(fld) if isinstance(sv, StructV) else None
+                        o = self.obl("valid", "%s.%s-nonnil" % (td.name, fld), tags)
+                        if isinstance(x, IfaceV):
+                            self.record(o, st, x.ref != NIL, out.info)
+                        elif isinstance(x, (PtrV, MapV, ChanV)):
+                            self.record(o, st, z3.Not(to_bool(x.nil)), out.info)
+                        elif isinstance(x, FuncV):
+                            self.record(o, st, (x.ref != NIL) if x.ref is not None else z3.BoolVal(True), out.info)
+                        else:
+                            o.instances += 1
+                            o.unknown.append({"reason": "field %s not found" % fld})
+                elif cl.kind == "invariant" and cl.ast is not None:
+                    o = self.obl("valid", "%s[%s]" % (td.name, cl.label or "inv"), tags)
+                    try:
+                        ictx = SpecCtx(self, st, st, {"self": p}, fr_pkg=td.pkg)
+                        ictx.token_obj = (p, rt)
+                        goal = to_bool(ictx.eval(cl.ast))
+                    except (SpecError, Unsupported) as e:
+                        o.instances += 1
+                        o.unknown.append({"reason": "spec error: %s" % e})
+                        continue
+                    self.record(o, st, goal, out.info)
 
     def lock_effect_obligations(self, decl, fn, rets, entry_held):
         """every lock class acquired on some path is declared (`acquires`); no lock is still held on return;
